@@ -138,6 +138,49 @@ func (e *Engine) modelBuf(s *State, fr *Frame, dst *ssa.Call, key string, f *ssa
 		return Term{}, false
 	}
 	switch key {
+	case "sort.Slice", "sort.SliceStable":
+		// sorts its first argument in place: the elements of that slice are permuted, nothing else is written.
+		// The permutation itself is not modelled: afterwards the element memory of that slice type is arbitrary.
+		if it, ok := args[0].(Term); ok {
+			if dyn, _, ok := e.ifaceDynType(it); ok {
+				if st, ok := dyn.Underlying().(*types.Slice); ok {
+					e.abstract("sort.Slice: permutes the elements of its slice argument in place (contents afterwards arbitrary, sortedness not modelled; trusted frame)")
+					mkey, _ := e.memKey(st.Elem())
+					s.havocHeapKey(mkey, "sort.Slice")
+					return nil, true
+				}
+			}
+		}
+		return nil, false
+	case "bytes.Reader.Read":
+		// bytes.Reader.Read(p) copies min(len(p), remaining) bytes and advances; at end of data it returns (0, io.EOF)
+		ref, ok := refOf(args[0])
+		if !ok {
+			return nil, false
+		}
+		e.trustModel("bytes.Reader.Read: copies min(len(p), remaining) bytes from the ghost stream, (0, EOF) when nothing remains")
+		v := e.brGet(s, ref)
+		e.brFacts(s, v)
+		e.streamByteFacts(s, v)
+		buf := args[1].(Term)
+		key8, sort8 := e.memKey(types.Typ[types.Uint8])
+		inner := arrayElemSort(sort8)
+		avail := Sub(v.ln, v.pos)
+		n := e.u.Define("readn", Ite(Le(App("s-len", SInt, buf), avail), App("s-len", SInt, buf), avail))
+		h := s.heapGet(key8, sort8)
+		base, off := App("s-base", SInt, buf), App("s-off", SInt, buf)
+		narr := e.u.Fresh("readarr", inner)
+		old := e.u.Define("oldarr", Select(h, base))
+		ax := fmt.Sprintf("(forall ((j Int)) (! (= (select %s j) (ite (and (<= %s j) (< j (+ %s %s))) (select %s (+ %s (+ %s (- j %s)))) (select %s j))) :pattern ((select %s j))))",
+			narr.S, off.S, off.S, n.S, v.data.S, v.off.S, v.pos.S, off.S, old.S, narr.S)
+		s.assume(Term{ax, SBool})
+		s.heapSet(key8, Store(h, base, narr))
+		e.brSetPos(s, ref, Add(v.pos, n))
+		errv := e.u.Fresh("readerr", SIface)
+		// error iff nothing could be read although something was asked for
+		s.assume(Eq(Not(Eq(App("i-type", SInt, errv), IntLit(0))), And(Eq(avail, IntLit(0)), Gt(App("s-len", SInt, buf), IntLit(0)))))
+		s.assume(Implies(Eq(App("i-type", SInt, errv), IntLit(0)), Eq(App("i-val", SInt, errv), IntLit(0))))
+		return &Tuple{Vs: []Value{n, errv}}, true
 	case "encoding/binary.bigEndian.PutUint16", "encoding/binary.bigEndian.PutUint32", "encoding/binary.bigEndian.PutUint64":
 		// same semantics as the div/mod model in models.go, but the digits are fresh bytes tied to the value by one
 		// linear equation (digits in base 256 exist and are unique): read-back proofs (be32(b, k) == v) become linear
